@@ -28,8 +28,6 @@ an exception identical to the one predict raised is not reported again for trans
 """
 from __future__ import annotations
 
-import itertools
-
 import numpy as np
 
 from runtime.common import Recorder, close, use_repo
